@@ -32,6 +32,7 @@ Require Import V.Oracle.C07UOracle.
 Require Import V.Proofs.C07UOracleProofs.
 Require Import V.Proofs.C06ConcOracle.
 Require Import V.Proofs.C07CrashOracle.
+Require Import V.Proofs.RingSim.
 Open Scope Z_scope.
 
 (* every configuration reachable under any schedule (positions below 2^62) satisfies the invariant *)
@@ -203,6 +204,35 @@ Theorem C07_conc_reachable : forall lo dead m x0 x, XInv lo dead x0 -> xreach de
 Proof. exact xreach_inv. Qed.
 Print Assumptions C07_conc_reachable.
 
+(* ... and beyond the store.  The model keeps the swept claims as separate slots behind the head slot's padding header;
+   `sim x xd` relates such a configuration to its description xd with one padding slot: same agent, same counters, same
+   memory (`C07_conc_sim_memory`), same producers except that the dead owners of swept claims are retired in xd.  Every step
+   of a live thread from x is matched by the same step (same event) from xd (`C07_conc_sim_step`), so XInv' x = "x is
+   similar to a configuration that satisfies XInv" is preserved by *every* step, the padding stores included, as long as each
+   store covers only uncommitted claims of dead producers (`C07_conc_step_all`), hence holds in every configuration reachable by
+   any schedule of the live threads with any number of unblock() calls, successful or not (`C07_conc_reachable_all`). *)
+Theorem C07_conc_sim_step : forall lo dead m xu xd tid xu' e,
+  sim dead xu xd -> XInv lo dead xd -> xstep m xu tid = Some (xu', e) -> (forall i, tid = S i -> ~ dead i) ->
+  exists xd', xstep m xd tid = Some (xd', e) /\ sim dead xu' xd'.
+Proof. exact sim_step. Qed.
+Print Assumptions C07_conc_sim_step.
+
+Theorem C07_conc_sim_memory : forall dead x xd, sim dead x xd -> render (ag_ring x) = render (ag_ring xd) /\
+  r_head (ag_ring x) = r_head (ag_ring xd) /\ r_tail (ag_ring x) = r_tail (ag_ring xd) /\ ag_agent x = ag_agent xd.
+Proof. exact sim_render. Qed.
+Print Assumptions C07_conc_sim_memory.
+
+Theorem C07_conc_step_all : forall lo dead m x tid x' e,
+  XInv' lo dead x -> xstep m x tid = Some (x', e) -> (forall i, tid = S i -> ~ dead i) -> in_xwindow x' ->
+  (forall h L, a_mode (ag_agent x) = AUnblocking (UPut h L) -> tid = O -> put_safe dead (ag_ring x) h L) ->
+  XInv' lo dead x'.
+Proof. exact xstep_inv'. Qed.
+Print Assumptions C07_conc_step_all.
+
+Theorem C07_conc_reachable_all : forall lo dead m x0 x, XInv' lo dead x0 -> xreach_all dead m x0 x -> XInv' lo dead x.
+Proof. exact xreach_all_inv. Qed.
+Print Assumptions C07_conc_reachable_all.
+
 (* what one access of unblock does: it goes on with a justified pc on the same ring, or returns false on the same
    ring, or it is the store *)
 Theorem C07_conc_unblock_access : forall lo dead R prods u R' nxt e,
@@ -356,6 +386,29 @@ Proof.
     + split; [exists 0%nat; split; [reflexivity | left; reflexivity] | cbn; lia].
     + exfalso. revert Hp. vm_compute. discriminate.
   - eexists. eexists. split; [vm_compute; reflexivity |]. split; vm_compute; reflexivity.
+Qed.
+
+(* non-vacuity of C07_conc_reachable_all: the run of C07_conc_example continued through the store, the survivor's commit and
+   beyond satisfies XInv' *)
+Example C07_conc_example_all :
+  exists x3 e, xstep Debug exu_x2 0 = Some (x3, e) /\ XInv' 8 (fun i => In i [0%nat]) x3 /\
+    exists x4 e', xstep Debug x3 2 = Some (x4, e') /\ XInv' 8 (fun i => In i [0%nat]) x4 /\ map p_pc (ag_prods x4) = [PHdr 8; PDone].
+Proof.
+  destruct C07_conc_example as (H2 & Em & _ & Hsafe & _).
+  destruct (xstep Debug exu_x2 0) as [[x3 e] |] eqn:E3; [| vm_compute in E3; discriminate].
+  assert (H3 : XInv' 8 (fun i => In i [0%nat]) x3).
+  { apply (xstep_inv' 8 (fun i => In i [0%nat]) Debug exu_x2 0%nat x3 e (xinv'_of _ _ _ H2) E3).
+    - intros i Hi. discriminate.
+    - vm_compute in E3. inversion E3; subst. vm_compute. discriminate.
+    - intros h L Em' _. rewrite Em in Em'. inversion Em'; subst. exact Hsafe. }
+  exists x3, e. split; [reflexivity |]. split; [exact H3 |].
+  destruct (xstep Debug x3 2) as [[x4 e'] |] eqn:E4; [| vm_compute in E3; inversion E3; subst; vm_compute in E4; discriminate].
+  exists x4, e'. split; [reflexivity |]. split.
+  - apply (xstep_inv' 8 (fun i => In i [0%nat]) Debug x3 2%nat x4 e' H3 E4).
+    + intros i Hi. inversion Hi; subst. intros [Hd | []]. discriminate.
+    + vm_compute in E3. inversion E3; subst. vm_compute in E4. inversion E4; subst. vm_compute. discriminate.
+    + intros h L _ Ht. discriminate.
+  - vm_compute in E3. inversion E3; subst. vm_compute in E4. inversion E4; subst. vm_compute. reflexivity.
 Qed.
 
 (* C07_inflight_limits - what the theorems above do not cover, and cannot: the owner of a swept claim is alive.  Producer 1
